@@ -141,7 +141,10 @@ def val_accepts(val, u: str, p: str) -> bool:
     if k == "any": return True
     if k == "single": return (u, p) == (val["u"], val["p"])
     if k == "ht":
-        return any(u == eu and p == ep for eu, ep in val.get("plain", []))
+        # what the htpasswd validator accepts is defined by the stored hash (library semantics: e.g. bcrypt reads the
+        # password as a C string, so "\x00" matches the hash of ""): last entry for the user, compared by the hash library
+        hs = [h for eu, h in val["entries"] if eu == u]
+        return bool(hs) and ht_check(hs[-1].split(":", 1)[0], p) is True
     return False
 
 
